@@ -18,7 +18,7 @@ res=""
 export VERIF_REPO=$wt VERIF_BUILD=/tmp/sb_$(basename $wt) VERIF_EVIDENCE_DIR=/tmp/sb_$(basename $wt)/evidence_scratch
 rm -f scnr/tests/seed_demo.rs
 for p in $props; do
-  o=$(cd /verif && ./check $p 2>&1 | grep -E "^(VIOLATION|OK|UNDECIDED|KNOWN|NOTE)" | head -4 | cut -c1-400 | tr '\n' '|'); res="$res$p: $o\n"
+  o=$(cd /verif && ./check $p 2>&1 | grep -E "^(VIOLATION|OK|UNDECIDED|NOTE)" | head -4 | cut -c1-400 | tr '\n' '|'); res="$res$p: $o\n"
 done
 git checkout -q -- scnr/src
 cp $sd/demo.rs scnr/tests/seed_demo.rs
